@@ -275,6 +275,29 @@ def c02_families(tier, seed, ids=None):
         rest = [it for it in items if not (it["t"] == "assign" and it["e"]["t"] == "fn")]
         lz.append(mk(ids, defs + [block(rest)], {"lazy-global": cname, "where": "block"}))
     out.append(("generators that re-read a global the loop body assigns", lz, ("value",)))
+    # loops whose whole body is `yield <one of the loop's variables>`: re-yielding generators (take the first n, pair up, pass through), with one
+    # to three iterators, yielding the first, second or last variable; the traced source shows how far each iterator was driven
+    ry = []
+    six = assign("six", fn([], block([assign("i", I(0)), wh(bin_("<", N("i"), I(6)), block([W("<"), y(N("i")), assign("i", bin_("+", N("i"), I(1)))]))])))
+    shapes = {
+        "pass through": fn(["g"], fr(["e"], [call("g")], y(N("e")))),
+        "take n, yield first": fn(["n", "g"], fr(["e", "k"], [call("g"), call("fromto", I(0), N("n"))], y(N("e")))),
+        "take n, yield second": fn(["n", "g"], fr(["k", "e"], [call("fromto", I(0), N("n")), call("g")], y(N("e")))),
+        "counter first, yield counter": fn(["n", "g"], fr(["k", "e"], [call("fromto", I(0), N("n")), call("g")], y(N("k")))),
+        "three iterators, yield first": fn(["n", "g"], fr(["e", "k", "z"], [call("g"), call("fromto", I(0), N("n")), call("elems", St("abcd"))], y(N("e")))),
+        "three iterators, yield last": fn(["n", "g"], fr(["k", "z", "e"], [call("fromto", I(0), N("n")), call("elems", St("abcd")), call("g")], y(N("e")))),
+        "yield first inside a block": fn(["n", "g"], fr(["e", "k"], [call("g"), call("fromto", I(0), N("n"))], block([y(N("e"))]))),
+    }
+    for sname, f in shapes.items():
+        for n in (0, 2, 3, 9):
+            use = call("tk", N("six")) if sname == "pass through" else call("tk", I(n), N("six"))
+            items = [six, assign("tk", f), assign("acc", lst([])), fr(["v"], [use], assign("acc", bin_("+", N("acc"), lst([N("v")])))), N("acc"),
+                     assign("acc", lst([])), fr(["v", "c"], [use, call("elems", St("xy"))], assign("acc", bin_("+", N("acc"), lst([N("v"), N("c")])))), N("acc"),
+                     assign("col", fn([], block([assign("a", lst([])), fr(["v"], [use], assign("a", bin_("+", N("a"), lst([N("v")])))), N("a")]))), call("col"), call("col")]
+            ry.append(mk(ids, items, {"reyield": sname, "n": n}))
+            if sname == "pass through":
+                break
+    out.append(("loops whose whole body is a yield of a loop variable", ry, ("value",)))
     # what a loop binds when its iterator expressions mention a name that is also one of its own variables (the expression sees the
     # enclosing variable): the family is shared with C04
     shared = [f for f in c04_families(tier, seed, Ids(8000000)) if f[0].startswith("a statement introduces a name")]
@@ -1934,3 +1957,22 @@ def float_chains(tier, seed, first_id=3600000):
                  assign("w", bin_(o2, bin_(o1, X, K1), K2)), bin_("==", N("w"), N("u")), lst([chain, N("u")]), un("-", chain), assign("nu", un("-", N("u"))), bin_("==", un("-", chain), N("nu"))]
         out.append(mk(ids, items, {"float-chain": [x, o1, k1, o2, k2]}))
     return ("floats outside the exact sub-domain: a chain in one piece gives what its steps gave", out, ("value",))
+
+
+
+def c01_selfcompare(tier, seed, first_id=3800000):
+    """== and != between a value and itself, an alias of it, a copy inside another array, and an equal value built separately: arrays that
+    hold functions or NaN are not equal to anything (function equality is always false, NaN is not equal to NaN), whoever holds them"""
+    ids = Ids(first_id)
+    out = []
+    nan = bin_("/", Fl(0, 0), Fl(0, 0))
+    makers = {"holds a function": lst([I(1), N("id")]), "holds NaN": lst([nan, I(2)]), "nested function": lst([lst([fn(["p"], N("p"))]), St("s")]), "plain": lst([I(1), St("a"), Fl(3, 1)]),
+              "holds nil-valued name": lst([I(1), I(2)]), "string": St("abc"), "function itself": N("id"), "NaN itself": nan, "empty": lst([])}
+    for mname, mkv in makers.items():
+        cmpf = assign("same", fn(["p", "q"], lst([bin_("==", N("p"), N("q")), bin_("!=", N("p"), N("q")), bin_("==", N("p"), N("p"))])))
+        count = assign("count", fn(["tbl", "x"], block([assign("k", I(0)), fr(["e"], [call("elems", N("tbl"))], iff(bin_("==", N("e"), N("x")), assign("k", bin_("+", N("k"), I(1))))), N("k")])))
+        items = [IDF, cmpf, count, assign("a", mkv), assign("b", N("a")), bin_("==", N("a"), N("a")), bin_("!=", N("a"), N("a")), bin_("==", N("a"), N("b")), bin_("==", lst([N("a")]), lst([N("b")])),
+                 bin_("==", N("a"), mkv), call("same", N("a"), N("a")), call("same", N("a"), N("b")), call("count", lst([N("a"), N("b"), I(0)]), N("a")), un("!", bin_("==", N("a"), N("b"))),
+                 iff(bin_("==", N("a"), N("a")), St("same")), bin_("==", call("id", N("a")), N("a"))]
+        out.append(mk(ids, items, {"selfcompare": mname}))
+    return ("a value compared with itself, an alias, a nested copy and an equal value built separately", out, ("value",))
